@@ -794,7 +794,9 @@ func (h *hist) opBlocksReload(v *vstate) error {
 		for _, p := range ps[:k] {
 			e := h.randElem(p)
 			if len(all) > 0 && h.r.Intn(2) == 0 {
-				e.Rels = append(e.Rels, am.Rel{Rel: relFor(e.Kind), To: all[h.r.Intn(len(all))]})
+				if to := all[h.r.Intn(len(all))]; to != p { // no self references
+					e.Rels = append(e.Rels, am.Rel{Rel: relFor(e.Kind), To: to})
+				}
 			}
 			es = append(es, e)
 			neg = neg || p.HasNeg()
@@ -895,8 +897,13 @@ func (h *hist) labelPost(v *vstate, rest string, body []byte, what string) (lmRe
 		return out, false, err
 	}
 	if !r.OK() {
-		// the label volume is only the fixture here (C08 owns it): a refusal is a harness problem, not a C13 violation
-		return out, false, fmt.Errorf("labelmap refused %s: %s; history %s", what, r, tail(h.trace, 6))
+		// the label volume is only the fixture here (C08 owns it): when it refuses an operation (e.g. its own index and
+		// voxels disagree after voxel edits) this history cannot go on, but that is no C13 verdict
+		h.c.Inconclusive(fmt.Sprintf("history %s: labelmap refused %s: %s", h.tag, what, drv.Trunc(string(r.Body), 300)))
+		h.c.Count("histories_abandoned_labelmap_refusal", 1)
+		h.c.Seen("labelmap_refusals", what)
+		h.dead = true
+		return out, false, nil
 	}
 	if len(r.Body) > 0 {
 		json.Unmarshal(r.Body, &out)
@@ -955,7 +962,7 @@ func (h *hist) opMerge(v *vstate) error {
 	h.opClass = "merge" + negSuffix(neg)
 	h.logf("merge@%s %v -> %d (%d elements change body)", v.name, merged, target, n)
 	body, _ := json.Marshal(append([]uint64{target}, merged...))
-	if _, _, err := h.labelPost(v, "merge", body, "merge"); err != nil {
+	if _, ok, err := h.labelPost(v, "merge", body, "merge"); err != nil || !ok {
 		return err
 	}
 	v.vol.Merge(target, merged)
@@ -1006,8 +1013,8 @@ func (h *hist) opCleave(v *vstate) error {
 	n, neg := h.elemsTouched(v, func(p am.Point) bool { return cs[v.vol.SVAt(p)] })
 	h.opClass = "cleave" + negSuffix(neg)
 	body, _ := json.Marshal(cll)
-	out, _, err := h.labelPost(v, fmt.Sprintf("cleave/%d", b), body, "cleave")
-	if err != nil {
+	out, ok, err := h.labelPost(v, fmt.Sprintf("cleave/%d", b), body, "cleave")
+	if err != nil || !ok {
 		return err
 	}
 	if out.CleavedLabel == 0 || out.CleavedLabel <= v.vol.MaxID() && v.labels[out.CleavedLabel] {
@@ -1059,8 +1066,8 @@ func (h *hist) opSplitSV(v *vstate) error {
 	h.opNT = false
 	n, neg := h.elemsTouched(v, func(p am.Point) bool { return v.vol.SVAt(p) == sv })
 	h.opClass = "split-supervoxel" + negSuffix(neg)
-	out, _, err := h.labelPost(v, fmt.Sprintf("split-supervoxel/%d", sv), am.EncodeRLE(runs), "split-supervoxel")
-	if err != nil {
+	out, ok, err := h.labelPost(v, fmt.Sprintf("split-supervoxel/%d", sv), am.EncodeRLE(runs), "split-supervoxel")
+	if err != nil || !ok {
 		return err
 	}
 	if out.SplitSupervoxel == 0 || out.RemainSupervoxel == 0 {
@@ -1109,8 +1116,8 @@ func (h *hist) opSplitBody(v *vstate) error {
 	size := [3]int32{hi[0] - lo[0], hi[1] - lo[1], hi[2] - lo[2]}
 	n, neg := h.elemsTouched(v, func(p am.Point) bool { return v.vol.BodyAt(p) == b && p.InBox(lo, size) })
 	h.opClass = "split" + negSuffix(neg)
-	out, _, err := h.labelPost(v, fmt.Sprintf("split/%d", b), am.EncodeRLE(runs), "split")
-	if err != nil {
+	out, ok, err := h.labelPost(v, fmt.Sprintf("split/%d", b), am.EncodeRLE(runs), "split")
+	if err != nil || !ok {
 		return err
 	}
 	if out.Label == 0 {
@@ -1248,7 +1255,7 @@ func (h *hist) opMutate(v *vstate) error {
 	h.opClass = class + negSuffix(neg)
 	h.logf("%s@%s block %s box %s..%s := supervoxel %d (body %d); %d elements in block, %d change body", class, v.name, b, lo, hi, val, v.vol.BodyOf(val), len(before), n)
 	raw := v.vol.Raw(boff, [3]int32{BS, BS, BS})
-	if _, _, err := h.labelPost(v, fmt.Sprintf("raw/0_1_2/%d_%d_%d/%s?mutate=true", BS, BS, BS, boff.URL()), raw, "POST raw mutate"); err != nil {
+	if _, ok, err := h.labelPost(v, fmt.Sprintf("raw/0_1_2/%d_%d_%d/%s?mutate=true", BS, BS, BS, boff.URL()), raw, "POST raw mutate"); err != nil || !ok {
 		return err
 	}
 	h.c.Count("op_mutate_raw", 1)
@@ -1301,7 +1308,7 @@ func (h *hist) opIngest(v *vstate) error {
 	h.opClass = class + negSuffix(neg)
 	h.logf("%s@%s block %s: x<%d supervoxel %d, rest supervoxel %d (body %d); %d elements already in that block", class, v.name, b, cut, ids[0], ids[1], v.vol.BodyOf(ids[1]), n)
 	raw := v.vol.Raw(boff, [3]int32{BS, BS, BS})
-	if _, _, err := h.labelPost(v, fmt.Sprintf("raw/0_1_2/%d_%d_%d/%s", BS, BS, BS, boff.URL()), raw, "POST raw ingest"); err != nil {
+	if _, ok, err := h.labelPost(v, fmt.Sprintf("raw/0_1_2/%d_%d_%d/%s", BS, BS, BS, boff.URL()), raw, "POST raw ingest"); err != nil || !ok {
 		return err
 	}
 	v.late++
